@@ -3,7 +3,7 @@ from hypothesis import strategies as st
 
 from ECAgent.Core import Agent, Model, ModelCompleteError, System
 from vf.engine import Violation, InvalidCase
-from vf.fixtures import CompA, CompB, check, expect_raises, sized_lists
+from vf.fixtures import CompA, CompB, check, expect_raises, sized_lists, wone_of
 
 PROPERTY = "C06"
 BUDGET = {"quick": 2400, "thorough": 6000}
@@ -142,12 +142,12 @@ def run_case(case):
 
 
 def strategy(tier):
-    after = st.one_of(st.just({"op": "step"}), st.builds(lambda n: {"op": "stepn", "n": n}, st.integers(1, 5)),
+    after = wone_of(st.just({"op": "step"}), st.builds(lambda n: {"op": "stepn", "n": n}, st.integers(1, 5)),
                       st.just({"op": "exec"}), st.just({"op": "exec_throw"}), st.just({"op": "complete"}),
                       st.builds(lambda p: {"op": "add", "prio": p}, st.integers(0, 4)),
                       st.builds(lambda i: {"op": "remove", "i": i}, st.integers(0, 7)))
     return st.fixed_dictionaries({
         "systems": st.lists(st.integers(0, 3), min_size=2, max_size=6),
-        "completer": st.integers(0, 5), "t": st.one_of(st.integers(0, 3), st.integers(0, 12)), "outside": st.sampled_from([False, False, False, True]),
+        "completer": st.integers(0, 5), "t": wone_of(st.integers(0, 3), st.integers(0, 12)), "outside": st.sampled_from([False, False, False, True]),
         "reach": st.sampled_from(["single", "multi"]), "extra": st.integers(0, 3),
         "after": sized_lists(after, 1, 12)})
